@@ -303,6 +303,91 @@ def _fold_return_vars(fnode):
     return changed[0]
 
 
+def _split_or_guards(fnode):
+    """`if A or B: <body that always leaves>` (no else)  ->  `if A: <body>` ; `if B: <body>` - the short-circuit order
+    of the disjunction made explicit, so that path rules see that B is only evaluated when A is false."""
+    changed = [False]
+
+    def leaves(stmts):
+        return bool(stmts) and isinstance(stmts[-1], (ast.Return, ast.Raise, ast.Continue, ast.Break))
+
+    def fix(stmts):
+        out = []
+        for s_ in stmts:
+            if isinstance(s_, ast.If) and not s_.orelse and isinstance(s_.test, ast.BoolOp) and isinstance(s_.test.op, ast.Or) \
+                    and leaves(s_.body) and len(s_.body) <= 3:
+                for v in s_.test.values:
+                    n = ast.If(test=v, body=[_copy(b) for b in s_.body], orelse=[])
+                    ast.copy_location(n, s_)
+                    out.append(n)
+                changed[0] = True
+            else:
+                out.append(s_)
+        return out
+
+    def walk(node):
+        for field in ('body', 'orelse', 'finalbody'):
+            blk = getattr(node, field, None)
+            if isinstance(blk, list) and blk and isinstance(blk[0], ast.stmt):
+                for s_ in blk:
+                    if not isinstance(s_, (ast.FunctionDef, ast.ClassDef)):
+                        walk(s_)
+                setattr(node, field, fix(blk))
+        for h in getattr(node, 'handlers', []) or []:
+            for s_ in h.body:
+                walk(s_)
+            h.body = fix(h.body)
+    walk(fnode)
+    return changed[0]
+
+
+def _fold_condition_vars(fnode):
+    """`c = E ; if c: ...` / `while c:` with c used nowhere else  ->  `if E: ...` (a test that was given a name)."""
+    uses = {}
+    for n in ast.walk(fnode):
+        if isinstance(n, ast.Name):
+            uses[n.id] = uses.get(n.id, 0) + 1
+    changed = [False]
+
+    def fix(stmts):
+        out, i = [], 0
+        while i < len(stmts):
+            s_ = stmts[i]
+            nxt = stmts[i + 1] if i + 1 < len(stmts) else None
+            if isinstance(s_, ast.Assign) and len(s_.targets) == 1 and isinstance(s_.targets[0], ast.Name) \
+                    and isinstance(nxt, ast.If) and uses.get(s_.targets[0].id) == 2:
+                nm = s_.targets[0].id
+                t = nxt.test
+                if isinstance(t, ast.Name) and t.id == nm:
+                    nxt.test = s_.value
+                    changed[0] = True
+                    i += 1
+                    continue
+                if isinstance(t, ast.UnaryOp) and isinstance(t.op, ast.Not) and isinstance(t.operand, ast.Name) and t.operand.id == nm:
+                    t.operand = s_.value
+                    changed[0] = True
+                    i += 1
+                    continue
+            out.append(s_)
+            i += 1
+        return out
+
+    def walk(node):
+        for field in ('body', 'orelse', 'finalbody'):
+            blk = getattr(node, field, None)
+            if isinstance(blk, list) and blk and isinstance(blk[0], ast.stmt):
+                for s_ in blk:
+                    if not isinstance(s_, (ast.FunctionDef, ast.ClassDef)):
+                        walk(s_)
+                setattr(node, field, fix(blk))
+        for h in getattr(node, 'handlers', []) or []:
+            for s_ in h.body:
+                walk(s_)
+            h.body = fix(h.body)
+    walk(fnode)
+    return changed[0]
+
+
 def _list_accumulators_to_tuples(fnode):
     """A local list that is only appended / extended and finally read through tuple(A) is the list spelling of a tuple
     accumulator: `A = []` -> `A = ()`, `A.append(x)` -> `A += (x,)`, `A.extend(T)` -> `A += T`, `tuple(A)` -> `A`."""
@@ -474,6 +559,8 @@ def inline_program(prog):
         fn.node.body = rewrite_block(fn, fn.node.body, 0)
         folded = _fold_return_vars(fn.node)
         folded = _expand_star_tuples(fn.node) or folded
+        folded = _fold_condition_vars(fn.node) or folded
+        folded = _split_or_guards(fn.node) or folded
         folded = _list_accumulators_to_tuples(fn.node) or folded
         if count != before or folded:
             ast.fix_missing_locations(fn.node)
@@ -481,6 +568,58 @@ def inline_program(prog):
                 for c in ast.iter_child_nodes(n):
                     c._parent = n
             # parent of the function node itself is unchanged
+    # expression-level: a new private helper whose body is a single `return <expr>` is substituted wherever it is called
+    def simple(a):
+        return isinstance(a, (ast.Name, ast.Constant)) or (isinstance(a, ast.Attribute) and simple(a.value))
+
+    class ExprInline(ast.NodeTransformer):
+        def __init__(self, fn):
+            self.fn = fn
+            self.n = 0
+
+        def visit_Call(self, node):
+            self.generic_visit(node)
+            h, self_arg = find_helper(self.fn, node)
+            if h is None:
+                return node
+            body = _strip_doc(h.body)
+            a = h.args
+            if len(body) != 1 or not isinstance(body[0], ast.Return) or body[0].value is None or a.vararg or a.kwarg or a.kwonlyargs:
+                return node
+            params = [x.arg for x in a.posonlyargs + a.args]
+            args = ([self_arg] if self_arg is not None else []) + list(node.args)
+            if len(args) != len(params) or node.keywords or any(isinstance(x, ast.Starred) for x in args):
+                return node
+            expr = body[0].value
+            cnt = {}
+            for x in ast.walk(expr):
+                if isinstance(x, ast.Name):
+                    cnt[x.id] = cnt.get(x.id, 0) + 1
+            if any((cnt.get(p_, 0) != 1) and not simple(a_) for p_, a_ in zip(params, args)):
+                return node
+            if any(isinstance(x, (ast.Lambda, ast.ListComp, ast.DictComp, ast.SetComp, ast.GeneratorExp)) for x in ast.walk(expr)):
+                return node
+            new = _Renamer(dict(zip(params, args))).visit(_copy(expr))
+            for x in ast.walk(new):
+                if not hasattr(x, 'lineno'):
+                    x.lineno, x.col_offset = getattr(node, 'lineno', 0), getattr(node, 'col_offset', 0)
+                    x.end_lineno, x.end_col_offset = getattr(node, 'end_lineno', None), getattr(node, 'end_col_offset', None)
+            inlined_nodes[id(h)] = h
+            log.append('%s <- (expr) %s' % (self.fn.qual, h.name))
+            self.n += 1
+            return new
+
+    for fn in list(prog.all_funcs()):
+        if fn.outer is not None:
+            continue
+        t = ExprInline(fn)
+        fn.node.body = [t.visit(s_) for s_ in fn.node.body]
+        if t.n:
+            count += t.n
+            ast.fix_missing_locations(fn.node)
+            for n in ast.walk(fn.node):
+                for c in ast.iter_child_nodes(n):
+                    c._parent = n
     # a helper that was inlined at every use is analysed in its callers' context only: drop it from the whole-program
     # scans (a remaining reference - a call inside an expression, a callback - keeps it)
     for h in inlined_nodes.values():
